@@ -62,7 +62,7 @@ JOBS["timer"] = dict(module="MC_Timer", constants=dict(Slice="timer", NQ=2, Gene
 JOBS["timer3"] = dict(module="MC_Timer", constants=dict(Slice="timer", NQ=3, GenerationFix="TRUE"), invariants=TIMER_INV,
                       timeout={"quick": 600, "thorough": 1800}, workers=8, tiers=("thorough",))
 
-JOBS["trace-solver"] = dict(kind="trace", module="TraceSolver", runs={"quick": 60, "thorough": 1500},
+JOBS["trace-solver"] = dict(kind="trace", module="TraceSolver", runs={"quick": 250, "thorough": 5000},
                             timeout={"quick": 900, "thorough": 3600})
 
 UNIFY_ASSUME = [
